@@ -47,6 +47,10 @@ struct HmHarness : HarnessBase {
 	int mode, prefill; bool drain_first;
 	alignas(16) unsigned char store[sizeof(M)];
 	bool alive = false;
+	// The caller's hasher object: the map is built from it and must have its own copy; the caller's object is
+	// overwritten once the start state is built (a map that kept a reference to it would start hashing differently).
+	typename KS::hasher hsrc{};
+	void scramble_hasher() { if constexpr(std::is_trivially_copyable_v<typename KS::hasher>) memset((void *)&hsrc, 0x5a, sizeof hsrc); }
 	std::map<int, int> ref;
 	std::vector<int> alphabet, universe;
 
@@ -63,16 +67,20 @@ struct HmHarness : HarnessBase {
 	M &m() { return *reinterpret_cast<M *>(store); }
 	void reset() {
 		world_reset();
-		memset(store, 0, sizeof store);
+		memset(store, 0xA5, sizeof store);
 		ref.clear();
 		if(prefill == -3) {   // initializer-list constructor with three entries (keys 1, 4, 7 like the pre-fill)
-			new(store) M(KS::hash(mode), {typename M::entry_type{KS::make(1), Val(1)}, typename M::entry_type{KS::make(4), Val(2)}, typename M::entry_type{KS::make(7), Val(1)}}, TrackAlloc{});
+			hsrc = KS::hash(mode);
+			new(store) M(hsrc, {typename M::entry_type{KS::make(1), Val(1)}, typename M::entry_type{KS::make(4), Val(2)}, typename M::entry_type{KS::make(7), Val(1)}}, TrackAlloc{});
 			alive = true; ref[1] = 1; ref[4] = 2; ref[7] = 1;
+			scramble_hasher();
 			return;
 		}
-		new(store) M(KS::hash(mode), TrackAlloc{}); alive = true;
-		for(int i = 0; i < prefill; i++) { int k = 3 * i + 1; m().insert(KS::make(k), Val(1 + (i & 1))); ref[k] = 1 + (i & 1); }
+		hsrc = KS::hash(mode);
+		new(store) M(hsrc, TrackAlloc{}); alive = true;
+		for(int i = 0; i < prefill; i++) { int k = 3 * i + 1; m().insert(KS::make(k), Val(1 + (i & 1))); ref[k] = 1 + (i & 1); if(i == prefill / 2) scramble_hasher(); }
 		if(drain_first) { for(int i = 0; i < prefill; i++) { m().remove(KS::make(3 * i + 1)); } ref.clear(); }
+		scramble_hasher();
 	}
 	enum { INSERT_C, INSERT_M, INDEX_ASSIGN, INDEX_TOUCH, REMOVE };
 	static uint32_t mk(uint32_t k, uint32_t ki, uint32_t v = 0) { return k | ki << 8 | v << 16; }
